@@ -246,7 +246,11 @@ func (n *trieNode) containsIP(ip net.IP, depth uint64) bool {
 	}
 	if n.bitmap != nil {
 		last := ip[len(ip)-1]
-		return n.bitmap.contains(last)
+		if n.bitmap.contains(last) {
+			return true
+		}
+		// Not one of the single addresses held in the bitmap: prefixes longer than the bitmap depth
+		// (e.g. an IPv4 /25../31) live in the children of this node, so keep descending.
 	}
 	b := getBitAt(ip, depth)
 	next := n.children[b]
